@@ -1,5 +1,30 @@
 package crypto
 
-import "github.com/jcmturner/gokrb5/v8/types"
+import (
+	"github.com/jcmturner/gokrb5/v8/crypto/etype"
+	"github.com/jcmturner/gokrb5/v8/types"
+)
 
 func vhKey(et int32, kv []byte) types.EncryptionKey { return types.EncryptionKey{KeyType: et, KeyValue: kv} }
+
+// Exported views of the RFC reference models for harnesses in other packages (overlay only).
+
+func VHSpecChecksum(et int, key, data []byte, usage uint32) []byte {
+	return vhChecksum(vhProfileOf(et), key, data, usage)
+}
+func VHSpecEncrypt(et int, key, conf, msg []byte, usage uint32) []byte {
+	return vhEncrypt(vhProfileOf(et), key, conf, msg, usage)
+}
+func VHKeyLen(et int) int   { return vhProfileOf(et).keyLen }
+func VHMacLen(et int) int   { return vhProfileOf(et).macLen }
+func VHConfLen(et int) int  { return vhProfileOf(et).conf }
+func VHCksumID(et int) int32 { return vhProfileOf(et).cksumID }
+
+func vhGenerateKey(e etype.EType) (types.EncryptionKey, error) { return types.GenerateEncryptionKey(e) }
+
+// the way the library generates authenticator subkeys (types.NewAuthenticator / spnego): key size from the etype
+func vhGenerateSubKey(e etype.EType) (types.EncryptionKey, error) {
+	var a types.Authenticator
+	err := a.GenerateSeqNumberAndSubKey(e.GetETypeID(), e.GetKeyByteSize())
+	return a.SubKey, err
+}
